@@ -6,8 +6,8 @@ import random
 ID = "C07"
 TITLE = "object generation yields exactly the objects of the class, each once"
 COQ_PROPS = "Props/C07.v"
-COQ_RUN = ("Count.ParseTreesRun", "run_c07d")   # = run_c07p (run_c07 + the parse-tree queries 5/6, C07_run_extends)
-#                                                 + ONE appended field [rank_ok, closed_ok, depth]: the decidable
+COQ_RUN = ("Count.ParseTreesRun", "run_c07d")   # = run_c07p (run_c07 + the parse-tree queries 5/6/7, C07_run_extends)
+#                                                 + ONE appended field [rank_ok, closed_ok, depth, leaves_ok]: the decidable
 #                                                 hypotheses of the end-to-end theorems decided on the case
 GEN_TARGETS = ["compositions"]
 N = {"quick": 2000, "thorough": 24000}
@@ -37,8 +37,16 @@ RULE = (
     "stream additionally OBJECTS <-> PARSE TREES (queries 5/6): for every object of the root up to the size bound (60 "
     "sampled above that) and 6 objects of every other class, the parse tree the model computes through its forward maps "
     "(derived forms included) is compared with the tree of the real object through Rule.forward_map (format of c12.py "
-    "Desc.tree), and unparse(parse o) of the model with the real backward maps composed bottom-up; when a leaf is a "
-    "verification rule that is not an atom both sides answer 'no tree' (37% of these queries on the shipped universes). "
+    "Desc.tree), unparse(parse o) of the model with the real backward maps composed bottom-up, and (query 7) the SIZE "
+    "AND PARAMETER TUPLE the model computes on the parse tree (leaf data of the descriptors + the rules' parameter maps "
+    "along the tree) with the size and key under which the real rule files the object (get_objects), the oracle "
+    "comparing both with len(o) and cls.get_parameters(o); a leaf is any verification rule of a one-object class "
+    "(AtomStrategy: descriptor [3, m, o]; StatAtom, an atom WITH parameters: [3, m, o, params]), so the specifications "
+    "with statistics have parse trees (before: all their queries answered 'no tree'); only a verification rule with "
+    "several objects has no leaf (both sides answer 'no tree'; 0 of 5706 queries on 200 cases of seed 0). "
+    "In the rule stream the unary steps of chains include ONE-FACTOR CartesianProduct rules "
+    "(words_onefactor.OneFactor swap / min, forwards and as ReverseRule: steps of1, of1min, rof1), bare or inside an "
+    "EquivalencePathRule. "
     "Model and implementation are compared as sorted lists. "
     "auto_search runs under a scripted clock and a PRNG seeded from the case (the specification it returns otherwise "
     "depends on wall-clock time). "
@@ -82,7 +90,20 @@ LEVEL_TEXT = (
     "object) is a bijection from the well-formed parse trees of the class with that size and parameters onto its objects "
     "with them, parse (forward maps top-down) computes the inverse with enough fuel, and both commute with the rules' maps "
     "at every node (C07_objects_are_parse_trees, C07_parse_unparse, C07_parse_sound, C07_node_commutes_union/_product, "
-    "C07_node_ok_rule_ok); C07_run_extends: the extracted run_c07p answers inputs without the new queries as run_c07; "
+    "C07_node_ok_rule_ok); SIZE AND PARAMETERS ON THE TREE, EXECUTED: tszd / tprd (Count/ParseTreesStats.v, what query 7 "
+    "runs: leaf sizes and leaf parameter tuples from tables, the rules' parameter maps at inner nodes) are tsz / tpr of "
+    "the bijection theorem when the tables are truthful (C07_tree_stats_are_tsz_tpr), and for every object o of a class "
+    "c whose parse answers t, tszd t = size o and tprd t = par c o (C07_parse_stats; converse C07_unparse_stats); the "
+    "run's tables are truthful when every descriptor [3, m, o, params] carries the size and parameters of o "
+    "(C07_leaf_data_run; checked by the oracle per leaf); C07_leaves_decided: the 4th verdict field leaves_ok = 1 gives "
+    "that every verified class of the decoded specification holds exactly the one object of its descriptor under the "
+    "declared size and parameters, or nothing; "
+    "ONE-FACTOR PRODUCTS (fix 25e10f1): product_contract c [k] [m] implies (and is implied by) union_contract c [k] [m] "
+    "(C07_one_factor_product_is_union_step, _maps for any list of one map, C07_union_step_is_one_factor_product), so a "
+    "one-factor product rule is a step of cchain / C07_path_contract (C07_one_factor_product_path_step), its ReverseRule "
+    "satisfies the full contract (C07_one_factor_product_reverse_contract, from C07_reverse_single_contract) and it "
+    "round-trips (C07_one_factor_product_roundtrip, from C07_roundtrip_plain_single); "
+    "C07_run_extends: the extracted run_c07p answers inputs without the new queries (5, 6, 7) as run_c07; "
     "ReverseRule: the flag len(original_rule.non_empty_children()) == 1 computed from truthful "
     "is_empty answers is true exactly when child idx is the only non-empty child (C07_reverse_flag), with the flag "
     "false both maps raise (C07_reverse_refuses), and with the other children empty the reverse rule is a bijection "
@@ -117,7 +138,14 @@ LEVEL_NOTE = (
     "len(generated) for the ROOT of spec-stream cases only (60% of the cases); other classes and the rule stream only "
     "have get_terms compared with brute-force counts for sizes <= min(N, P)). "
     "Parse trees: parse / unparse / the derived maps made total are modelled (Count/ParseTrees.v, ParseTreesForms.v) and "
-    "tied by queries 5/6; verification rules with several objects have no leaf (no tree: both sides answer -1), "
+    "tied by queries 5/6/7; tszd / tprd (query 7) are executed, tsz / tpr themselves occur only in statements and are "
+    "related to them by C07_tree_stats_are_tsz_tpr under leaf_data (the descriptor's size and parameters of a one-object "
+    "verification rule are the object's own: data from the strategy's get_objects, checked by the oracle against "
+    "len(o) / cls.get_parameters(o)); that a class verified as an atom has NO other object is the class's is_atom() "
+    "answer (contract; a lie shows as a kind-0/4 mismatch up to the size bound); on the implementation side query 7 "
+    "reads the key under which Rule.get_objects files the object, so a wrong parameter map inside a union or path is "
+    "seen by the ORACLE (model and implementation take the library's parameter maps as data and agree); "
+    "verification rules with several objects have no leaf (no tree: both sides answer -1), "
     "Complement/Quotient nodes are outside. The contracts node_ok are hypotheses on user code (checked per case by the "
     "kind-2 round trips on sampled objects, not proved); for derived forms they are now THEOREMS from the original rule's "
     "contract + others_empty (the reverse direction also needs the reversed parameter map to undo the child's map). "
@@ -155,7 +183,12 @@ ASSUMPTIONS = [
     "EquivalencePathRule / ReverseRule nodes the contract of the DERIVED maps follows from the original rule's "
     "(C07_equivalence_contract, C07_reverse_equivalence_contract, C07_path_contract) given others_empty",
     "C07_objects_are_parse_trees: forward maps given as functions; every verification rule is an atom (one object) or "
-    "empty; sizes are >= 0",
+    "empty - decided per case (leaves_ok, C07_leaves_decided; extra_checks: every stat and ext spec case of seeds 0-2) "
+    "up to the class's own is_atom(); sizes are >= 0",
+    "C07_parse_stats: leaf_data - the size m and the parameters of a descriptor [3, m, o, params] are those of o "
+    "(checked per case for every such leaf: m == len(o), params == cls.get_parameters(o), o in the class)",
+    "C07_one_factor_product_*: the rule has exactly one child and one parameter map (true of every CartesianProduct "
+    "constructor: one map per child)",
     "CartesianProduct: min/max sizes are true bounds, minima >= 0, at least one child (bounds_ok)",
     "specification closed, one rule per class, productive (rank certificate over the reads of every level) - closedness "
     "and the existence of a certificate are decided on every compared case by run_c07d and recomputed by the harness "
@@ -254,6 +287,22 @@ def _step(cur, name):
             return r.to_reverse_rule(0) if r.children[0] == cur else None
         if stat:
             return None
+        if name in ("of1", "of1min", "rof1"):
+            # a ONE-FACTOR CartesianProduct rule (harness/universes/words_onefactor.py: the relabelling declared as a
+            # product with a single child) - an equivalence step since fix 25e10f1 - forwards and reversed
+            from harness.universes.words_onefactor import OneFactor
+
+            if name == "of1min":
+                r = OneFactor("min")(cur)
+                r.children
+                return r
+            if len(cur.alphabet) < 2:
+                return None
+            if name == "of1":
+                return OneFactor("swap")(cur)
+            par = _image(cur, _swap_map(cur.alphabet))
+            r = OneFactor("swap")(par)
+            return r.to_reverse_rule(0) if r.children[0] == cur else None
         if name == "swap2":
             return U.SwapLastTwo()(cur) if len(cur.alphabet) >= 3 else None
         if name == "rswap2":
@@ -527,6 +576,29 @@ def _dict(d):
     return [[list(p), [U.enc(o) for o in l]] for p, l in d.items()]
 
 
+def _one_object_leaf(r, cls):
+    """(m, o, params) when r is a verification rule - not AtomStrategy, not EmptyStrategy - of a class that declares
+    itself an atom (is_atom(): exactly one object) and whose strategy lists exactly that one object at the class's
+    minimum size: the leaf `[3, m, o, params]` of the descriptors (StatAtom of the statistics universes: an atom WITH
+    parameters, which the library's AtomStrategy refuses).  The size m and the key params are the STRATEGY's own
+    (get_objects); the oracle compares them with len(o) and cls.get_parameters(o).  None otherwise (table [2, ..])."""
+    from comb_spec_searcher.strategies.rule import VerificationRule
+    from comb_spec_searcher.strategies.strategy import AtomStrategy, EmptyStrategy
+
+    if not isinstance(r, VerificationRule) or isinstance(r.strategy, (AtomStrategy, EmptyStrategy)):
+        return None
+    try:
+        if not cls.is_atom():
+            return None
+        m = cls.minimum_size_of_object()
+        items = [(p, l) for p, l in r.strategy.get_objects(cls, m).items() if l]
+    except Exception:  # pylint: disable=broad-except
+        return None
+    if len(items) != 1 or len(items[0][1]) != 1:
+        return None
+    return m, items[0][1][0], [int(x) for x in items[0][0]]
+
+
 def _rule_desc(w, lab, n):
     from comb_spec_searcher.strategies.constructor import CartesianProduct
     from comb_spec_searcher.strategies.rule import VerificationRule
@@ -541,6 +613,9 @@ def _rule_desc(w, lab, n):
             return [3, m, _U().enc(next(cls.objects_of_size(m)))]
         if isinstance(r.strategy, EmptyStrategy):
             return [4]
+        leaf = _one_object_leaf(r, cls)
+        if leaf is not None:
+            return [3, leaf[0], _U().enc(leaf[1]), leaf[2]]
         return [2, [_dict(r.strategy.get_objects(cls, m)) for m in range(n + 1)]]
     if w.mapsonly:
         return [0, w.kids[lab], [], _form(r, n)]
@@ -599,6 +674,7 @@ def _queries(w, case):
             for o in objs:
                 qs.append([5, lab, U.enc(o)])
                 qs.append([6, lab, U.enc(o)])
+                qs.append([7, lab, U.enc(o)])
     return qs
 
 
@@ -631,9 +707,15 @@ def _shape(w, lab):
     from comb_spec_searcher.strategies.constructor import CartesianProduct
     from comb_spec_searcher.strategies.rule import VerificationRule
 
+    from comb_spec_searcher.strategies.strategy import AtomStrategy, EmptyStrategy
+
     r = w.rules[lab]
-    if r is None or isinstance(r, VerificationRule):
+    if r is None:
         return [2]
+    if isinstance(r, VerificationRule):
+        if isinstance(r.strategy, AtomStrategy) or _one_object_leaf(r, w.classes[lab]) is not None:
+            return [3]
+        return [4] if isinstance(r.strategy, EmptyStrategy) else [2]
     if w.mapsonly:
         return [0, w.kids[lab]]
     cons = r.constructor
@@ -643,7 +725,7 @@ def _shape(w, lab):
 
 
 def rank_verdict(shapes):
-    """[rank_ok, closed_ok, depth] - an independent computation of what Count/ParseTreesDeciders.v rankb / closedb
+    """[rank_ok, closed_ok, depth, leaves_ok] - an independent computation of what Count/ParseTreesDeciders.v rankb / closedb
     decide (Count/ParseTreesRun.v rank_verdict prints): the same-size class graph (children of a union; children of
     a product whose siblings' minimum sizes add up to 0) is acyclic and every product has as many minima / maxima as
     children, minima >= 0; every child label is a listed class; depth = the longest path in that graph (a child
@@ -686,7 +768,11 @@ def rank_verdict(shapes):
 
     acyclic = all(visit(c) for c in range(L))
     ok = shape_ok and acyclic
-    return [int(ok), int(closed), max(depth, default=0) if ok else 0]
+    # 4th field (Count/ParseTreesStats.v leavesb): no verification rule is given by a table (shape [2]) - every
+    # verified class is one object (shape [3]) or empty (shape [4]); callers that only know "a leaf" pass [2] and read
+    # the first two fields
+    leaves = all(d[0] != 2 for d in shapes)
+    return [int(ok), int(closed), max(depth, default=0) if ok else 0, int(leaves)]
 
 
 def _verdict(w):
@@ -697,6 +783,8 @@ def _verdict(w):
 
 def impl(case):
     res = _impl(case)
+    if case["kind"] == "spec":
+        res["universe"] = case["cfg"]["universe"]
     # the appended field of run_c07d, recomputed here from the same world: compared by the core on every case
     res["verdict"] = _verdict(build(case))
     res["out"] = list(res["out"]) + [res["verdict"]]
@@ -713,7 +801,7 @@ def _impl(case):
     if w.unsupported:
         return {"out": [], "skip": "a rule without get_sub_objects (Complement/Quotient)"}
     _fresh(w)
-    out, extra = [], {"gen": {}, "count": {}}
+    out, extra = [], {"gen": {}, "count": {}, "pt": [0, 0]}
     for q in _queries(w, case):
         kind, lab, x = q
         r, cls = w.rules[lab], w.classes[lab]
@@ -745,12 +833,23 @@ def _impl(case):
             elif kind == 4:
                 t = cls.get_terms(x) if r is None else r.get_terms(x)
                 out.append(sorted([list(p), v] for p, v in t.items() if v))
-            elif kind in (5, 6):
+            elif kind in (5, 6, 7):
                 t, ok = _real_tree(w, lab, U.dec(x))
+                if kind == 7:
+                    extra["pt"][0] += 1
+                    extra["pt"][1] += int(ok)
                 if not ok:
-                    out.append([-1])      # a leaf that is not an atom: no parse tree in the model
+                    out.append([-1])      # a leaf that is not a one-object class: no parse tree in the model
                 elif kind == 5:
                     out.append(t)
+                elif kind == 7:
+                    # the size and the parameter tuple under which the REAL rule files this object
+                    # (Rule.get_objects through _ensure_level_objects: the key computed by the constructor's
+                    # parameter maps from the children's keys); [-2]: not generated at its own size
+                    o = U.dec(x)
+                    d = cls.get_objects(len(o)) if r is None else r.get_objects(len(o))
+                    keys = [list(p) for p, l in d.items() if any(U.enc(y) == x for y in l)]
+                    out.append([len(o), keys[0]] if len(keys) == 1 else [-2, keys])
                 else:
                     back = _real_unparse(w, t)
                     out.append([-1] if back is None else [U.enc(back)])
@@ -778,11 +877,14 @@ def _impl(case):
 
 
 # ------------------------------------------------------------------ parse trees of real objects
-def _is_atom_rule(r):
+def _is_atom_rule(r, cls=None):
+    """a leaf of parse trees: AtomStrategy, or any verification rule of a one-object class (_one_object_leaf)"""
     from comb_spec_searcher.strategies.rule import VerificationRule
     from comb_spec_searcher.strategies.strategy import AtomStrategy
 
-    return isinstance(r, VerificationRule) and isinstance(r.strategy, AtomStrategy)
+    if isinstance(r, VerificationRule) and isinstance(r.strategy, AtomStrategy):
+        return True
+    return cls is not None and _one_object_leaf(r, cls) is not None
 
 
 def _real_tree(w, lab, obj):
@@ -790,7 +892,7 @@ def _real_tree(w, lab, obj):
     [0, label] for a childless rule, [1, label, [[] | [tree] per child]]; second component: every leaf is an atom"""
     r = w.rules[lab]
     if r is None or not r.children:
-        return [0, lab], (r is not None and _is_atom_rule(r))
+        return [0, lab], (r is not None and _is_atom_rule(r, w.classes[lab]))
     parts = r.forward_map(obj)
     kids, ok = [], True
     for klab, p in zip(w.kids[lab], parts):
@@ -914,6 +1016,19 @@ def oracle(case, res):
             # unparse(parse o) = o (unless a leaf is not an atom: outside the parse-tree model)
             if a != [x] and not (a == [-1] and not _real_tree(w, lab, U.dec(x))[1]):
                 return "unparse(parse(%r)) in class %d = %r" % (str(U.dec(x)), lab, a)
+        elif kind == 7:
+            # C07_parse_stats: size and parameter tuple computed on the parse tree (leaf data + the rules' parameter
+            # maps along the tree; on the implementation side the key under which the rule files the object) are the
+            # object's own size and cls.get_parameters(o) - the class's own code, independent of the library
+            o = U.dec(x)
+            if a == [-1]:
+                if _real_tree(w, lab, o)[1]:
+                    return "no size/parameters for the parse tree of %r in class %d" % (str(o), lab)
+            else:
+                truth = [len(o), [int(v) for v in cls.get_parameters(o)]]
+                if a != truth:
+                    return "parse tree of %r in class %d (%s) has size/parameters %r, the object has %r" % (
+                        str(o), lab, cls, a, truth)
         elif kind == 1:
             # the pairs must be the splits of the parent's objects of size x
             truth = []
@@ -953,6 +1068,15 @@ def oracle(case, res):
     if case["kind"] == "spec" and v is not None and [-9] not in res["out"] and not (v[0] and v[1]):
         return "specification whose generation terminated, but no %s (verdict %r)" % (
             "rank certificate found by rankb" if not v[0] else "closedness", v)
+    # leaf data of the descriptors [3, m, o, params] (hypothesis leaf_data of C07_parse_stats / C07_leaf_data_run):
+    # the size and the key the verification STRATEGY files its one object under are the object's own
+    for lab, r in enumerate(w.rules):
+        leaf = _one_object_leaf(r, w.classes[lab]) if r is not None else None
+        if leaf is not None:
+            m, o, p = leaf
+            if m != len(o) or p != [int(v) for v in w.classes[lab].get_parameters(o)] or not U.member(w.classes[lab], o):
+                return "verification rule of class %d (%s) files its object %r under size %d, parameters %r" % (
+                    lab, w.classes[lab], str(o), m, p)
     # contract evidence for the theorems' hypotheses (bounds_ok)
     n, _ = _limits(w, case)
     for lab, r in enumerate(w.rules):
@@ -981,7 +1105,8 @@ def _rand_cls(rng, stats=False, alph=None):
     return d
 
 
-_STEPS = ["swap", "rswap", "swap2", "rswap2", "min", "rmin", "exp_eq", "rexp", "exp_eq2", "rexp2"]
+_STEPS = ["swap", "rswap", "swap2", "rswap2", "min", "rmin", "exp_eq", "rexp", "exp_eq2", "rexp2",
+          "of1", "rof1", "of1min"]
 
 
 def _gen_rule(rng):
@@ -1083,6 +1208,7 @@ def key(case):
     return json.dumps(c, sort_keys=True)
 
 
+MIN_STAT_TREES = 0.95   # stat universe: cases whose every leaf is a one-object class AND queries 5/6/7 answered; measured 1.00
 _DECIDED = "C07_generate_exact_decided"   # = C07_generate_exact with rank certificate and closed decided by the run
 MIN_COVERED = 0.98                        # measured 1.00 (every non-skipped case) on seeds 0, 1, 2, quick tier
 
@@ -1110,7 +1236,31 @@ def extra_checks(ctx):
         n += 1
         k += bool(v[0] and v[1])
     frac = k / n if n else 1.0
+    # parse trees (C07_objects_are_parse_trees / C07_parse_stats): decidable hypotheses = rank + closed + leaves
+    # (no verification rule given by a table), per universe of the spec stream; and the parse-tree queries answered
+    pt = {}
+    for res, _why, _nt in ctx.impl_res:
+        v, u = res.get("verdict"), res.get("universe")
+        if v is None or u is None or res.get("skip") or "exception" in res or res.get("broken"):
+            continue
+        e = pt.setdefault(u, [0, 0, 0, 0])
+        e[0] += 1
+        e[1] += bool(v[0] and v[1] and len(v) > 3 and v[3])
+        e[2] += res.get("pt", [0, 0])[0]
+        e[3] += res.get("pt", [0, 0])[1]
+    st = pt.get("stat", [0, 0, 0, 0])
+    ex = pt.get("ext", [0, 0, 0, 0])
+    stat_ok = st[0] == 0 or (st[1] / st[0] >= MIN_STAT_TREES and st[2] > 0 and st[3] / st[2] >= MIN_STAT_TREES)
     return [
+        ("covered_by_theorem C07_objects_are_parse_trees/C07_parse_stats (specifications WITH parameters, stat universe): "
+         "%d of %d cases, %d of %d parse-tree queries answered; ext universe: %d of %d cases, %d of %d queries" % (
+             st[1], st[0], st[3], st[2], ex[1], ex[0], ex[3], ex[2]), stat_ok,
+         "spec-stream cases on which the run and the harness decide rank + closed + leaves_ok (every verification rule "
+         "is a one-object class [3, m, o, params] or empty: the decidable part of node_ok, C07_leaves_decided) and "
+         "queries of kind 7 (size and parameter tuple of parse o, C07_parse_stats) that have a tree on both sides; "
+         "before the descriptor [3, m, o, params] the stat figures were 0 of n (every stat leaf a table, every query "
+         "[-1]); minimum fraction %.2f for both stat figures; ext cases without coverage are those with a verification "
+         "rule of several objects" % MIN_STAT_TREES),
         ("covered_by_theorem %s: %d of %d" % (_DECIDED, k, n), n == 0 or frac >= MIN_COVERED,
          "cases of the retained batch (skipped ones excluded) on which the extracted run AND the harness decide that a "
          "rank certificate exists for all sizes (rankb, C07_rank_decided) and that the specification is closed "
@@ -1148,6 +1298,10 @@ def classify(case, res):
                     tags.append("path has EquivalenceRule(%s)" % type(x.original_rule).__name__)
         elif isinstance(r, (EquivalenceRule, ReverseRule)):
             tags.append("bare " + type(r).__name__)
+    if case["kind"] == "rule" and case.get("what") == "chain" and any(x in case["steps"] for x in ("of1", "rof1", "of1min")):
+        tags.append("rule stream: chain with a one-factor-product step")
+    if res.get("pt") and res["pt"][0]:
+        tags.append("parse-tree queries: %s" % ("all answered" if res["pt"][0] == res["pt"][1] else "some without tree"))
     if w.spec is not None:
         # product rules with a single factor (fix 25e10f1) as steps of equivalence paths, forwards / in reverse
         from harness.universes import words_onefactor
